@@ -71,7 +71,7 @@ def main():
                 if (name.startswith('demo_fails') and not failed) or (name.startswith('demo_passes') and not ok):
                     res['confirm'][name + '_output'] = out[-500:]
                 os.remove(os.path.join(tree, 'tests', 'demo.rs'))
-        for p in props:
+        for p in ([] if '--no-check' in sys.argv else props):
             rc, out = sh('./check %s' % p, ROOT, env=dict(os.environ, VERIF_REPO=mut), timeout=3600)
             lines = [l for l in out.split('\n') if l.startswith(('VIOLATION', 'OK ', 'UNDECIDED property', 'KNOWN-FINDING', 'failed obligation'))]
             res['checks'][p] = {'exit': rc, 'lines': lines[:6]}
